@@ -167,7 +167,7 @@ def emit_behaviours(chk, tier):
 
 def stop_bound(cfg):
     wait = max(5, 5 * ((cfg["R"] + 4) // 5))
-    by = cfg["maxd"] + (cfg["retries0"] + 2) * (wait + cfg["maxd"]) + wait
+    by = 2 * (cfg["maxd"] + (cfg["retries0"] + 2) * (wait + cfg["maxd"]) + wait)
     return min(by, cfg["die"] + 2) if cfg["die"] > 0 else by
 
 
@@ -420,7 +420,7 @@ def run(tier):
         "producer output that exists before run() (mtime <= the primed lastLaunched) is outside the claim (constant PreRunOutput = FALSE)",
         "the task generator never raises; FilesystemInconsistencyError paths, the optimizer and restart() (lastExecution) are not modelled",
         "stopping because the configured kill delay expired counts as a permitted stop for clause 2",
-        "bounded termination is checked as StopBound = maxd + (retries0+2)*(poll-rounded interval + maxd) + interval, or kill delay + 2 s",
+        "bounded termination is checked as StopBound = 2*(maxd + (retries0+2)*(poll-rounded interval + maxd) + interval), or kill delay + 2 s",
     ]
     if unexplained and not chk.violations:
         chk.finish()
